@@ -98,7 +98,11 @@ func (g *Gateway) subscriptionHandler(w http.ResponseWriter, r *http.Request) {
 		// close conn
 		defer conn.Close()
 
-		// gracefully close connection
+		// gracefully close connection, close frame must not be mixed with messages of listeners
+		if sc, ok := conn.(*syncConn); ok {
+			sc.Lock()
+			defer sc.Unlock()
+		}
 		body := ws.NewCloseFrameBody(ws.StatusNormalClosure, "")
 		frame := ws.NewCloseFrame(body)
 		if err := ws.WriteHeader(conn, frame.Header); err != nil {
